@@ -150,6 +150,38 @@ def group_scenarios(rng, tier):
     return out
 
 
+# ---- the names inside ONE import list, nested lists included: an element is a leaf (str) or
+# (prefix, [elements]); every arrangement (permutation of every list, at every depth) of one
+# base list must format to the same text
+LIST_BASES = [
+    [("b", ["z", "c"]), ("b", ["d", "e"]), "a", "c"],
+    [("", ["a"]), "c", "b"],
+    [("p", ["x"]), "p::y", "o"],
+    [("b", [("c", ["e", "d"]), "a"]), "b::a2", "B"],
+    ["z10", "z9", "z09", "Z"],
+    [("b", ["a", "*"]), "b::c", "a"],
+    [("m", ["x", "y"]), ("", ["q", "p"]), "n"],
+]
+
+
+def arrangements(elems):
+    """every arrangement of a list: -> list of rendered `{..}` bodies"""
+    def one(e):
+        if isinstance(e, str):
+            return [e]
+        pre, sub = e
+        return [(pre + "::" if pre else "") + "{" + body + "}" for body in arrangements(sub)]
+    outs = []
+    for perm in itertools.permutations(range(len(elems))):
+        for combo in itertools.product(*[one(elems[i]) for i in perm]):
+            outs.append(", ".join(combo))
+    return outs
+
+
+def idents(text):
+    return sorted(re.findall(r"[A-Za-z_][A-Za-z_0-9]*|\*", text.replace("use ", "", 1)))
+
+
 def tie_class(kind, name):
     return re.sub(r"\s+as\s+\w+$", "", name) if kind == "use" else name
 
@@ -301,8 +333,41 @@ def run(tier, seed, replay=None):
                               "perms": [{k: p[k] for k in ("inp", "out", "attach_ok", "bounds_ok")}
                                         for p in perms]})
                 gmeta.append((si, se))
+        # ---- import lists in every arrangement ----
+        ljobs, lmeta = [], []
+        for bi, base in enumerate(LIST_BASES):
+            arr = arrangements(base)
+            if tier == "quick" and len(arr) > 24:
+                arr = sorted(arr, key=lambda a: core.fnv(f"{seed}:{a}".encode()))[:24]
+            for se in ("2015", "2024"):
+                for a in arr:
+                    ljobs.append({"id": len(ljobs), "src": "use k::{" + a + "};\n",
+                                  "opts": {"style_edition": se}, "want": ["out"]})
+                    lmeta.append((bi, se))
+        lres = ucore.run_jobs(ljobs, sc)
+        lby = {}
+        for (bi, se), o, j in zip(lmeta, lres, ljobs):
+            lby.setdefault((bi, se), []).append((o, j))
+        for (bi, se), runs in sorted(lby.items()):
+            texts, ok = [], True
+            for o, j in runs:
+                out = o.get("out", "") if o.get("ok") else ""
+                ok = ok and bool(out) and [x for x in idents(out) if x] == [x for x in idents(j["src"]) if x]
+                texts.append(out)
+            ids = {}
+            grecs.append({"n": 1, "tie": [1], "group": [1],
+                          "perms": [{"inp": [1], "out": [1], "attach_ok": ok, "bounds_ok": True}],
+                          "texts": [ids.setdefault(t, len(ids) + 1) for t in texts]})
+            gmeta.append(("list", bi, se, sorted(set(texts))[:4]))
         gfails, gstates = core.eval_report("ReorderObs", "ReorderObs.cfg", grecs, scratch=sc)
         for idx, f in gfails:
+            if gmeta[idx][0] == "list":
+                _, bi, se, outs = gmeta[idx]
+                v.violation(f"list:{','.join(sorted(f['fails']))}:base={bi}:se={se}",
+                            f"{f['fails']} for the arrangements of the import list {LIST_BASES[bi]} "
+                            f"(style_edition {se}): outputs {outs}",
+                            {"base": LIST_BASES[bi], "outputs": outs, "record": grecs[idx]})
+                continue
             si, se = gmeta[idx]
             scn = scen[si]
             v.violation(f"reorder:{','.join(sorted(f['fails']))}:{scn['kind']}:n={len(scn['names'])}:"
@@ -314,7 +379,7 @@ def run(tier, seed, replay=None):
     v.sample({"group": scen[1]["names"], "perm_record": grecs[1]["perms"][:2]})
     cov = {"states": res.distinct, "transitions": res.states,
            "traces_validated_against_impl": len(records) + len(grecs) - len(ofails) - len(gfails),
-           "evaluations": len(names) ** 2 + n_pairs + len(jobs),
+           "evaluations": len(names) ** 2 + n_pairs + len(jobs) + len(ljobs),
            "distinct_nontrivial": len(names) + len(USE_POOL) + len(MOD_POOL) + len(grecs),
            "rule": "identifier universe over {a,b,A,B,_,0,1,2,9} (length <= 2, sampled in quick) plus "
                    "leading-zero / chunk-boundary witnesses: full table of the exported version_sort; "
